@@ -423,13 +423,21 @@ class WT:
         return n <= MAX_HELPER_STMTS and not any(isinstance(x, (ast.Yield, ast.YieldFrom, ast.Global, ast.Nonlocal)) for x in ast.walk(t.node))
 
     def bind(self, t, args, kwargs):
-        if t.vararg or t.kwarg or len(args) > len(t.params):
+        if t.vararg or len(args) > len(t.params):
             return None
         b = dict(zip(t.params, args))
+        extra = []
         for k_, v_ in kwargs.items():
-            if k_ in b or k_ not in t.params + t.kwonly:
+            if k_ in b:
                 return None
+            if k_ not in t.params + t.kwonly:
+                if not t.kwarg:
+                    return None
+                extra.append((('const', k_), v_))        # collected by the callee's **kwargs
+                continue
             b[k_] = v_
+        if t.kwarg:
+            b[t.kwarg] = ('dict', tuple(sorted(extra, key=key)))
         return b
 
     def with_defaults(self, t, bound, depth):
@@ -546,8 +554,9 @@ class WT:
                     pt = _forwarding(self.prog, lf_) if lf_ is not None else None
                     if pt is not None and pt is not lf_ and isinstance(pt.target, Func):
                         kws_ = {k_: self.ev(f, v_, env, depth) for k_, v_ in pt.keywords.items()}
-                        res_ = ('call', 'functools.partial', (('global', pt.target.name),), tuple(sorted(kws_.items())))
-                        self.calls.append(Call('functools.partial', {}, [('global', pt.target.name)], kws_, s, list(self.guards), f, res_))
+                        lead_ = [self.ev(f, a_, env, depth) for a_ in pt.args]
+                        res_ = ('call', 'functools.partial', (('global', pt.target.name),) + tuple(lead_), tuple(sorted(kws_.items())))
+                        self.calls.append(Call('functools.partial', {}, [('global', pt.target.name)] + lead_, kws_, s, list(self.guards), f, res_))
                         env[s.name] = res_
                 continue
         return env, ret
